@@ -186,6 +186,12 @@ def quarticGenerator (w0 w1 w2 : GQ) : Mat :=
     else if r = 12 ∧ k = 3 then w2 else if r = 3 ∧ k = 12 then GQ.conj w2
     else 0
 
+/-- generator of `DoubleExcitationGate`: `−|0011⟩⟨1100| − |1100⟩⟨0011|` (the gate with exponent `t` is
+`exp(−iπt·G)`) -/
+def doubleExcitationGenerator : Mat :=
+  (List.range 16).map fun r => (List.range 16).map fun k =>
+    if (r = 3 ∧ k = 12) ∨ (r = 12 ∧ k = 3) then -1 else 0
+
 end C14
 end Model
 end OFV
